@@ -299,18 +299,18 @@ Section SeqAttr.
         else match r0 with
              | [] => None
              | ttb :: r1 =>
-               let tt := i8_of_byte ttb in
-               if (tt <? PREDICTION_TRANSFORM_NONE_) || (tt >=? NUM_PREDICTION_SCHEME_TRANSFORM_TYPES_) then None
-               else Some (tt, r1)
+               let trt := i8_of_byte ttb in
+               if (trt <? PREDICTION_TRANSFORM_NONE_) || (trt >=? NUM_PREDICTION_SCHEME_TRANSFORM_TYPES_) then None
+               else Some (trt, r1)
              end in
       match hdr with
       | None => None
-      | Some (tt, r1) =>
+      | Some (trt, r1) =>
         if (n =? 0)%nat then None else      (* GetPortableAttributeData() == nullptr for 0 entries *)
         match dec_sym_body (n * 2) 2 r1 with
         | None => None
         | Some (syms, r4) =>
-          if tt =? PREDICTION_TRANSFORM_NORMAL_OCTAHEDRON_CANONICALIZED_ then
+          if trt =? PREDICTION_TRANSFORM_NORMAL_OCTAHEDRON_CANONICALIZED_ then
             match dec_le 4 r4 with
             | None => None
             | Some (mqv, r5) =>
@@ -323,7 +323,7 @@ Section SeqAttr.
                 end
               end
             end
-          else if tt =? PREDICTION_TRANSFORM_NORMAL_OCTAHEDRON_ then
+          else if trt =? PREDICTION_TRANSFORM_NORMAL_OCTAHEDRON_ then
             match dec_le 4 r4 with
             | None => None
             | Some (mqv, r5) =>
